@@ -9,7 +9,7 @@ pub struct Quarantine;
 
 const POISON: u8 = 0xDE;
 const MAX_BLOCK: usize = 1 << 16;
-const CAP_BYTES: usize = 48 << 20;
+const CAP_BYTES: usize = 24 << 20;
 const RING: usize = 1 << 18;
 
 static ON: AtomicBool = AtomicBool::new(false);
@@ -111,6 +111,39 @@ pub fn check_only() -> u64 {
             let (p, s, _) = SLOTS[i];
             verify(p, s);
             i = (i + 1) % RING;
+        }
+    }
+    unlock();
+    CORRUPTIONS.load(Ordering::SeqCst)
+}
+
+/// position in the quarantine ring; blocks freed afterwards can be verified with `check_since`
+pub fn marker() -> usize {
+    lock();
+    let h = unsafe { HEAD };
+    unlock();
+    h
+}
+
+/// verify the blocks parked since `marker` (older ones are verified when they leave the quarantine)
+pub fn check_since(marker: usize) -> u64 {
+    lock();
+    unsafe {
+        let mut i = marker % RING;
+        // blocks that already left the quarantine were verified on eviction: never look at their slots
+        let live = (HEAD + RING - TAIL) % RING;
+        let wanted = (HEAD + RING - i) % RING;
+        if wanted > live {
+            i = TAIL;
+        }
+        let mut n = 0;
+        while i != HEAD && n < RING {
+            let (p, s, _) = SLOTS[i];
+            if p != 0 {
+                verify(p, s);
+            }
+            i = (i + 1) % RING;
+            n += 1;
         }
     }
     unlock();
